@@ -62,6 +62,7 @@ type call struct {
 	id      uint16
 	q       []byte
 	late    bool // cancel after the adversary saw it; adversary answers after the call returned
+	parked  bool // (with late) held until the scenario releases it explicitly; not scanned by flush
 	seenCh  chan struct{}
 	seenOne sync.Once
 	retCh   chan struct{}
@@ -140,10 +141,12 @@ type connAdv struct {
 	defr       wire.Deframer
 	pend       []*pq
 	late       []*pq
+	parked     []*pq
 	idx        int
 	tr         map[int]int
 	noise      bool
 	lastWire   uint16
+	lastNew    uint16 // wire ID of the newest first transmission (datagram re-sends do not count)
 	heldByWire map[uint16]*pq
 	strayN     int
 	since      time.Time
@@ -195,11 +198,23 @@ func (a *connAdv) onWrite(c *fakenet.Conn, data []byte) error {
 		p := &pq{wireID: qi.WireID, seq: qi.Seq, sendIdx: a.idx, trans: a.tr[qi.Seq], qsect: qi.QSect, cl: cl}
 		cl.sawWire(qi.WireID)
 		a.lastWire = qi.WireID
+		if p.trans == 1 {
+			a.lastNew = qi.WireID
+		}
 		if a.since.IsZero() {
 			a.since = time.Now()
 		}
 		if cl.late {
-			a.late = append(a.late, p)
+			if hp := a.heldByWire[qi.WireID]; hp != nil && hp.seq == qi.Seq {
+				// datagram re-send of a query that is already held under this ID
+				a.mu.Unlock()
+				continue
+			}
+			if cl.parked {
+				a.parked = append(a.parked, p)
+			} else {
+				a.late = append(a.late, p)
+			}
 			if a.heldByWire == nil {
 				a.heldByWire = map[uint16]*pq{}
 			}
@@ -795,6 +810,10 @@ func main() {
 			fmt.Println("cannot load replay:", err)
 			os.Exit(3)
 		}
+		if strings.HasSuffix(c.Cfg.Transport, exhaustSuffix) {
+			idExhaustion(strings.HasPrefix(c.Cfg.Transport, "stream"), c.Cfg.PerCaller, c.Cfg.Surplus, c.Cfg.Seed)
+			rep.Finish()
+		}
 		for i := 0; i < 20; i++ {
 			c.Cfg.Seed += int64(i)
 			runBatch(c.Cfg)
@@ -877,7 +896,15 @@ func main() {
 	if rep.Thorough() {
 		wrapAround(70000, 50, rep.Seed)
 	} else {
-		wrapAround(66200, 50, rep.Seed)
+		// quick: the exhaustion scenario below keeps (more) queries held across the
+		// wrap on one connection and verifies them the same way; one pass is enough
+	}
+	// failed wire-ID assignments must not disturb the queries in flight (exhaust.go)
+	if rep.Thorough() {
+		idExhaustion(false, 2, true, rep.Seed)
+		idExhaustion(true, 1, false, rep.Seed+1)
+	} else {
+		idExhaustion(false, 1, false, rep.Seed)
 	}
 	runtime.GOMAXPROCS(16)
 	sched.NoPerturb()
